@@ -10,14 +10,17 @@ import os, sys, glob
 sys.path.insert(0, os.path.dirname(os.path.abspath(__file__)))
 import lib
 
-BDIR = os.path.join(lib.BUILD, "pyimath")
+# A scratch copy of the repository (VERIF_REPO=/some/copy, used to sanity-test the checks against
+# deliberately broken sources) gets its own build tree: .build/pyimath_<VERIF_BUILD_TAG>.
+_TAG = os.environ.get("VERIF_BUILD_TAG", "") if os.environ.get("VERIF_REPO") else ""
+BDIR = os.path.join(lib.BUILD, "pyimath" + ("_" + _TAG if _TAG else ""))
 PYTHON = os.environ.get("VERIF_PYTHON") or (
     "/root/.pyenv/versions/3.11.7/bin/python3" if os.path.exists("/root/.pyenv/versions/3.11.7/bin/python3") else "python3")
 
 
 def build(timeout=3600):
     lib.ensure_dir(BDIR)
-    with lib.Lock("pyimath"):
+    with lib.Lock(os.path.basename(BDIR)):
         if not os.path.exists(os.path.join(BDIR, "build.ninja")):
             rc, out = lib.sh(["cmake", "-G", "Ninja", "-S", lib.REPO, "-B", BDIR, "-DPYTHON=ON", "-DBUILD_TESTING=OFF",
                               "-DCMAKE_BUILD_TYPE=Release", "-DPython3_EXECUTABLE=" + PYTHON], timeout=timeout)
